@@ -417,25 +417,91 @@ func (rc *Received) DropRawDeep() {
 	}
 }
 
-// nonCanonicalDeep explains why a wire message is not in deterministic form,
-// looking inside protected headers too ("" when it is canonical).
-func nonCanonicalDeep(b []byte) string {
+// protectedOfUnprot collects the protected byte strings of the
+// countersignatures nested (at any depth) in an unprotected bucket: the values
+// of labels 7 and 11, a COSE_Countersignature or a list of them.  Only these
+// structural positions count - a header VALUE that merely looks like a
+// signature object (say 24: [h'a0', {}, 0]) is data, not a header.
+func protectedOfUnprot(unprot *refcbor.Item, depth int, out *[]*refcbor.Item) {
+	if unprot == nil || unprot.Major != refcbor.MMap || depth > 32 {
+		return
+	}
+	for _, label := range []int64{refcose.LCsig, refcose.LCsigV2} {
+		v := refcose.Lookup(unprot, label)
+		if v == nil || v.Major != refcbor.MArray {
+			continue
+		}
+		objs := v.Elems
+		if len(v.Elems) == 3 && v.Elems[0].Major == refcbor.MBstr {
+			objs = []*refcbor.Item{v}
+		}
+		for _, o := range objs {
+			if o.Major == refcbor.MArray && len(o.Elems) == 3 && o.Elems[0].Major == refcbor.MBstr {
+				*out = append(*out, o.Elems[0])
+				protectedOfUnprot(o.Elems[1], depth+1, out)
+			}
+		}
+	}
+}
+
+// protectedItems lists the protected-header byte strings of an object of the
+// given decoder ("Sign1Message", "UntaggedSign1Message", "SignMessage",
+// "Signature", "Countersignature", "ProtectedHeader", "UnprotectedHeader";
+// anything else: none).
+func protectedItems(dec string, b []byte) []*refcbor.Item {
+	it, err := refcbor.ParseOne(b)
+	if err != nil {
+		return nil
+	}
+	var out []*refcbor.Item
+	layer := func(arr *refcbor.Item) {
+		if arr.Major == refcbor.MArray && len(arr.Elems) >= 2 && arr.Elems[0].Major == refcbor.MBstr {
+			out = append(out, arr.Elems[0])
+			protectedOfUnprot(arr.Elems[1], 0, &out)
+		}
+	}
+	switch dec {
+	case "Sign1Message", "UntaggedSign1Message", "SignMessage":
+		arr := it
+		if it.Major == refcbor.MTag {
+			arr = it.Elems[0]
+		}
+		layer(arr)
+		if dec == "SignMessage" && arr.Major == refcbor.MArray && len(arr.Elems) == 4 && arr.Elems[3].Major == refcbor.MArray {
+			for _, s := range arr.Elems[3].Elems {
+				layer(s)
+			}
+		}
+	case "Signature", "Countersignature":
+		layer(it)
+	case "ProtectedHeader":
+		if it.Major == refcbor.MBstr {
+			out = append(out, it)
+		}
+	case "UnprotectedHeader":
+		protectedOfUnprot(it, 0, &out)
+	}
+	return out
+}
+
+// nonCanonicalDeep explains why an object go-cose encoded is not in
+// deterministic form, looking inside its protected headers too ("" when it is
+// canonical).  dec names the decoder the object belongs to.
+func nonCanonicalDeep(dec string, b []byte) string {
 	if r := refcbor.IsCanonicalBytes(b); r != "" {
 		return r
 	}
-	m, err := OpenTree(b)
-	if err != nil {
-		return err.Error()
-	}
-	for _, w := range m.wraps {
-		if r := refcbor.IsCanonicalBytes(w.bstr.Data); r != "" {
-			return "inside a protected header: " + r
+	for _, p := range protectedItems(dec, b) {
+		if len(p.Data) == 0 {
+			continue
 		}
-	}
-	// an empty protected header must be h'', a0 inside is not canonical output
-	for _, s := range m.Slots() {
-		if s.Role == "prot" && bytes.Equal(s.Arr.Elems[s.Idx].Data, []byte{0xa0}) {
+		if bytes.Equal(p.Data, []byte{0xa0}) {
+			// an empty protected header must be h'', a0 inside is not what a
+			// deterministic encoder of the zero-length header emits
 			return "empty protected header spelt h'a0'"
+		}
+		if r := refcbor.IsCanonicalBytes(p.Data); r != "" {
+			return "inside a protected header: " + r
 		}
 	}
 	return ""
